@@ -20,7 +20,10 @@ FUNCS = ['androguard.decompiler.decompile.DvMethod.process / get_source', 'DvCla
          'control_flow.identify_structures (intervals, loops, ifs, switches, short circuits, catch)', 'node.Interval / Node.update_attribute_with',
          'writer.Writer', 'basic_blocks', 'instruction.*.get_used_vars']
 DATA = 'tests/data/APK'
-SOURCES = [('TestActivity.apk', 'Ltests/androguard/'), ('Test.dex', ''), ('ExceptionHandling.dex', ''), ('FillArrays.dex', ''),
+QUICK_SOURCES = [('TestActivity.apk', 'Ltests/androguard/'), ('TestActivity.apk', 'Landroid/support/v4/view/ViewPager;'),
+                 ('TestActivity.apk', 'Landroid/support/v4/content/LocalBroadcastManager;'),
+                 ('TestActivity.apk', 'Landroid/support/v4/view/PagerTitleStrip;')]
+SOURCES = [('TestActivity.apk', ''), ('Test.dex', ''), ('ExceptionHandling.dex', ''), ('FillArrays.dex', ''),
            ('AnalysisTest.dex', ''), ('InterfaceCls.dex', ''), ('FieldsTest.dex', ''), ('StringTests.dex', '')]
 MODS = ['graph', 'dataflow', 'control_flow', 'node', 'basic_blocks', 'writer', 'instruction', 'decompile', 'util', 'opcode_ins', 'dast']
 
@@ -156,7 +159,7 @@ def run(ctx):
     mods = load()
     ctx.functions_encoded = FUNCS
     repo = os.environ.get('VERIF_REPO', '/repo')
-    srcs = SOURCES[:1] if not ctx.thorough else SOURCES
+    srcs = QUICK_SOURCES if not ctx.thorough else SOURCES
     jobs = []
     total = 0
     for name, prefix in srcs:
@@ -168,7 +171,7 @@ def run(ctx):
         step = 4
         for lo in range(0, len(ms), step):
             jobs.append((name, prefix, lo, min(lo + step, len(ms)), ctx.thorough))
-    ctx.bounds = dict(files=[s[0] for s in srcs], methods=total,
+    ctx.bounds = dict(files=sorted({s[0] for s in srcs}), classes=[s[1] or '(all)' for s in srcs], methods=total,
                       orders='every single order-consuming site (set iteration / pop with >= 2 elements whose hash is seed or layout '
                       'dependent) through all permutations up to 4 elements, 4 fixed permutations beyond' +
                       ('; every pair of sites for methods with <= 10 sites' if ctx.thorough else ''),
